@@ -68,11 +68,20 @@ func caseFeatures(c Case, e *Expect) []string {
 	var out []string
 	perFam := map[string]int{}
 	delayed := false
+	payload, bareArgs, bareArgsThenSet := false, false, false
 	for _, s := range c.Chain {
 		if s.DelayMs > 0 {
 			delayed = true
 		}
 		for _, op := range s.Ops {
+			payload = payload || op.Payload
+			if op.Fam == "args" && c.Kind == "create" {
+				if op.Act == "del" {
+					bareArgs = true
+				} else if bareArgs {
+					bareArgsThenSet = true
+				}
+			}
 			if op.Act != "del" {
 				perFam[op.Fam]++
 			}
@@ -86,6 +95,15 @@ func caseFeatures(c Case, e *Expect) []string {
 	}
 	if delayed {
 		out = append(out, "slow_handler")
+	}
+	if payload {
+		out = append(out, "removal_marker_carrying_a_whole_entry")
+	}
+	if bareArgs {
+		out = append(out, "bare_command_line_override_marker")
+	}
+	if bareArgsThenSet {
+		out = append(out, "command_line_set_behind_a_bare_override_marker")
 	}
 	if e != nil && e.SelfDups > 0 {
 		out = append(out, "first_update_collides_with_itself")
